@@ -344,6 +344,20 @@ def inline_statement_calls(p: Program, f: Function, depth: int = 2) -> ast.AST:
     return ast.fix_missing_locations(node)
 
 
+def _shallow_expr_copy(e: ast.AST, keep_identity: ast.AST) -> ast.AST:
+    """copy of an expression tree in which the node `keep_identity` is the same object (so it can be found and replaced)"""
+    import copy
+    if e is keep_identity:
+        return e
+    c = copy.copy(e)
+    for fld, val in ast.iter_fields(e):
+        if isinstance(val, ast.AST):
+            setattr(c, fld, _shallow_expr_copy(val, keep_identity))
+        elif isinstance(val, list):
+            setattr(c, fld, [_shallow_expr_copy(x, keep_identity) if isinstance(x, ast.AST) else x for x in val])
+    return c
+
+
 def inline_value_calls(p: Program, f: Function, depth: int = 2, keep=()) -> Function:
     """Copy of f in which `targets = helper(args)`, `targets = self.helper(args)` and `return helper(args)` are replaced by the
     helper's body when the helper (same package, or a function nested in f) has exactly one `return`, as its last statement
@@ -561,8 +575,14 @@ def inline_value_calls(p: Program, f: Function, depth: int = 2, keep=()) -> Func
             hoist = None
             if d > 0 and isinstance(st, ast.For) and isinstance(st.iter, ast.Call):
                 hoist = ("iter", st.iter)
-            elif d > 0 and isinstance(st, ast.If) and isinstance(st.test, ast.Call):
-                hoist = ("test", st.test)
+            elif d > 0 and isinstance(st, ast.If):
+                inner = [c for c in ast.walk(st.test) if isinstance(c, ast.Call) and helper_of(c, module)[0] is not None]
+                # the first operand evaluated (`if helper(..)`, `if not helper(..)`, `if helper(..) and x`): binding it first keeps the order
+                first = st.test
+                while isinstance(first, (ast.UnaryOp, ast.BoolOp, ast.Compare)):
+                    first = first.operand if isinstance(first, ast.UnaryOp) else (first.values[0] if isinstance(first, ast.BoolOp) else first.left)
+                if len(inner) == 1 and inner[0] is first:
+                    hoist = ("test", inner[0])
             elif d > 0 and isinstance(st, ast.Expr) and isinstance(st.value, ast.Call):
                 hoist = ("value", st.value)
             if hoist is not None and helper_of(hoist[1], module)[0] is not None:
@@ -577,7 +597,17 @@ def inline_value_calls(p: Program, f: Function, depth: int = 2, keep=()) -> Func
                     stmts[k_ - 1:k_] = [bind]
                 else:
                     st2 = copy.copy(st)
-                    setattr(st2, hoist[0], ast.copy_location(ast.Name(id=tmp, ctx=ast.Load()), hoist[1]))
+                    repl = ast.copy_location(ast.Name(id=tmp, ctx=ast.Load()), hoist[1])
+                    if getattr(st, hoist[0]) is hoist[1]:
+                        setattr(st2, hoist[0], repl)
+                    else:
+                        target_call = hoist[1]
+
+                        class RC(ast.NodeTransformer):
+                            def visit_Call(self, n):
+                                return repl if n is target_call else self.generic_visit(n)
+                        # transform a shallow-copied test so the original tree is untouched
+                        setattr(st2, hoist[0], RC().visit(_shallow_expr_copy(getattr(st, hoist[0]), target_call)))
                     stmts[k_ - 1:k_] = [bind, st2]
                 k_ -= 1
                 continue
